@@ -190,3 +190,371 @@ theorem fieldVals_true : ∀ (ps : List Str) (vs : List Nat), fieldVals ps true 
       · rw [if_neg hp] at h; simp at h
 
 end Pox.Addr
+
+namespace Pox.Addr
+
+/-! ### dotted-quad tail -/
+
+theorem mapM_some_all {α β : Type} (f : α → Option β) : ∀ (l : List α) (r : List β), l.mapM f = some r → ∀ x ∈ l, (f x).isSome = true := by
+  intro l
+  induction l with
+  | nil => intro r _ x hx; simp at hx
+  | cons a t ih =>
+    intro r h x hx
+    rw [List.mapM_cons] at h
+    cases hfa : f a with
+    | none => rw [hfa] at h; simp at h
+    | some b =>
+      rw [hfa] at h
+      cases ht : t.mapM f with
+      | none => rw [ht] at h; simp at h
+      | some bs =>
+        rcases List.mem_cons.mp hx with rfl | hx
+        · simp [hfa]
+        · exact ih bs ht x hx
+
+theorem inetPart_digits (p : Str) (h : (inetPart p).isSome = true) : AllDig 10 p := by
+  unfold inetPart at h
+  by_cases h1 : (p.isEmpty || decide (p.length > 3)) = true
+  · rw [if_pos h1] at h; simp at h
+  · rw [if_neg h1] at h
+    by_cases h2 : (!(p.all fun c => decide (digitVal c < 10))) = true
+    · rw [if_pos h2] at h; simp at h
+    · intro c hc
+      simp only [Bool.not_eq_true', Bool.not_eq_false] at h2
+      have := List.all_eq_true.mp h2 c hc
+      simpa using this
+
+theorem inetAton_ok (q : Str) (bs : Bytes) (h : inetAton q = .ok bs) :
+    (∃ b0 b1 b2 b3, bs = [b0, b1, b2, b3]) ∧ '.' ∈ q ∧ ':' ∉ q := by
+  unfold inetAton at h
+  cases hm : (splitOn '.' q).mapM inetPart with
+  | none => rw [hm] at h; simp at h
+  | some r =>
+    rw [hm] at h
+    have hall := mapM_some_all inetPart _ r hm
+    refine ⟨?_, ?_, ?_⟩
+    · match r, h with
+      | [a, b, c, d], h => simp only [Except.ok.injEq] at h; exact ⟨_, _, _, _, h.symm⟩
+    · apply Classical.byContradiction
+      intro hn
+      rw [splitOn_none '.' q hn] at hm
+      rw [List.mapM_cons, List.mapM_nil] at hm
+      cases hp : inetPart q with
+      | none => rw [hp] at hm; simp at hm
+      | some n =>
+        rw [hp] at hm
+        simp only [Option.pure_def, Option.bind_eq_bind, Option.bind_some, Option.some.injEq] at hm
+        rw [← hm] at h
+        simp at h
+    · intro hc
+      rw [← joinWith_splitOn '.' q] at hc
+      rcases mem_joinWith hc with e | ⟨p, hp, hx⟩
+      · exact absurd e (by decide)
+      · exact (inetPart_digits p (hall p hp)).not_mem (by rw [dv_colon]; decide) hx
+
+theorem quadGroups_some (q : Str) (g : List Nat) (h : quadGroups q = some g) :
+    ∃ b0 b1 b2 b3 : UInt8, inetAton q = .ok [b0, b1, b2, b3] ∧ g = [b0.toNat * 256 + b1.toNat, b2.toNat * 256 + b3.toNat] ∧
+      '.' ∈ q ∧ ':' ∉ q := by
+  unfold quadGroups at h
+  cases ha : inetAton q with
+  | error e => rw [ha] at h; simp at h
+  | ok bs =>
+    obtain ⟨⟨b0, b1, b2, b3, rfl⟩, hd, hc⟩ := inetAton_ok q bs ha
+    rw [ha] at h
+    simp only [Option.some.injEq] at h
+    exact ⟨b0, b1, b2, b3, rfl, h.symm, hd, hc⟩
+
+/-- `IPAddr(q).toRaw()` for an accepted quad is the four bytes -/
+theorem ip4_of_quad (q : Str) (b0 b1 b2 b3 : UInt8) (h : inetAton q = .ok [b0, b1, b2, b3]) :
+    ∃ ip, IP4.ofText q = .ok ip ∧ ip.raw = [b0, b1, b2, b3] := by
+  obtain ⟨x, hx, _, hr⟩ := IP4.raw_ofRaw b0 b1 b2 b3
+  refine ⟨x, ?_, hr⟩
+  unfold IP4.ofText
+  rw [h]
+  simp only [IP4.ofRaw, List.length_cons, List.length_nil, if_true, Except.ok.injEq] at hx
+  simp [Functor.map, Except.map, hx]
+
+/-! ### the structure of one side of the text -/
+
+/-- one side of `::` (or a whole text without `::`) that denotes `vs`: either hex fields only, or hex fields followed by
+    a dotted quad -/
+inductive Side (t : Str) (vs : List Nat) : Prop
+  | hex (ps : Segs) (hg : ps.Good) (ht : t = joinWith ':' ps.strs) (hv : vs = ps.vals)
+  | quad (ps : Segs) (q : Str) (b0 b1 b2 b3 : UInt8) (hg : ps.Good) (ht : t = pre ps.strs ++ q)
+      (hq : inetAton q = .ok [b0, b1, b2, b3]) (hdot : '.' ∈ q) (hcol : ':' ∉ q)
+      (hv : vs = ps.vals ++ [b0.toNat * 256 + b1.toNat, b2.toNat * 256 + b3.toNat])
+
+theorem side_of_listVals (t : Str) (v4 : Bool) (vs : List Nat) (h : listVals t v4 = some vs) :
+    Side t vs ∧ (v4 = false → ∃ ps : Segs, ps.Good ∧ t = joinWith ':' ps.strs ∧ vs = ps.vals) := by
+  unfold listVals at h
+  by_cases he : t.isEmpty = true
+  · rw [if_pos he] at h
+    have ht : t = [] := by simpa using he
+    simp only [Option.some.injEq] at h
+    have : Side t vs := .hex [] (by intro p hp; simp at hp) (by rw [ht]; rfl) (by rw [← h]; rfl)
+    exact ⟨this, fun _ => ⟨[], by intro p hp; simp at hp, by rw [ht]; rfl, by rw [← h]; rfl⟩⟩
+  · rw [if_neg he] at h
+    have hj := joinWith_splitOn ':' t
+    cases v4 with
+    | false =>
+      obtain ⟨h1, h2⟩ := fieldVals_false _ vs h
+      have hs : ∃ ps : Segs, ps.Good ∧ t = joinWith ':' ps.strs ∧ vs = ps.vals :=
+        ⟨hexSegs (splitOn ':' t), hexSegs_good _ h1, by rw [hexSegs_strs, hj], by rw [hexSegs_vals, h2]⟩
+      obtain ⟨ps, a, b, c⟩ := hs
+      exact ⟨.hex ps a b c, fun _ => ⟨ps, a, b, c⟩⟩
+    | true =>
+      refine ⟨?_, fun hf => by simp at hf⟩
+      rcases fieldVals_true _ vs h with ⟨h1, h2⟩ | ⟨init, q, g, e, h1, hq, h2⟩
+      · exact .hex (hexSegs (splitOn ':' t)) (hexSegs_good _ h1) (by rw [hexSegs_strs, hj]) (by rw [hexSegs_vals, h2])
+      · obtain ⟨b0, b1, b2, b3, hq', hg, hdot, hcol⟩ := quadGroups_some q g hq
+        refine .quad (hexSegs init) q b0 b1 b2 b3 (hexSegs_good _ h1) ?_ hq' hdot hcol (by rw [hexSegs_vals, h2, hg])
+        rw [hexSegs_strs, ← hj, e]
+        unfold pre
+        by_cases hi : init = []
+        · subst hi; simp [joinWith]
+        · rw [if_neg hi, joinWith_snoc ':' init q hi]; simp
+
+end Pox.Addr
+
+namespace Pox.Addr
+
+/-! ### parsing `L::R` for any number of groups -/
+
+theorem parseGroups_dc' (L R : Segs) (hL : L.Good) (hR : R.Good) :
+    parseGroups (joinWith ':' L.strs ++ ':' :: ':' :: joinWith ':' R.strs) =
+      if max 1 L.length + 1 + max 1 R.length ≤ 8 then
+        .ok (groupBytes (L.vals ++ List.replicate (8 - L.length - R.length) 0 ++ R.vals))
+      else .error .runtime := by
+  have hsL := hL.segs
+  have hsR := hR.segs
+  have hsplit : splitOn ':' (joinWith ':' L.strs ++ ':' :: ':' :: joinWith ':' R.strs) =
+      segsOf L.strs ++ [] :: segsOf R.strs := by
+    rw [splitOn_join_append ':' _ _ (fun g hg => (hsL g hg).2)]
+    congr 1
+    rw [splitOn, if_pos rfl, splitOn_join ':' _ (fun g hg => (hsR g hg).2)]
+  unfold parseGroups
+  rw [hsplit, countDC_join_dc _ _ hsL hsR]
+  have hl : (segsOf L.strs ++ [] :: segsOf R.strs).length = max 1 L.length + 1 + max 1 R.length := by
+    simp [segsOf_length, Segs.strs]; omega
+  simp only [hl]
+  rw [if_neg (by omega)]
+  by_cases hc : max 1 L.length + 1 + max 1 R.length ≤ 8
+  · rw [if_pos hc, if_neg (by omega), parseSegs_segsOf_left L _ hL, parseSegs_segsOf_right R _ hR]
+    simp [Segs.vals, Functor.map, Except.map]
+  · rw [if_neg hc, if_pos (by omega)]
+
+theorem Segs.Good.join_nil {L : Segs} (h : L.Good) : joinWith ':' L.strs = [] ↔ L = [] := by
+  constructor
+  · intro hj
+    cases L with
+    | nil => rfl
+    | cons p t =>
+      exfalso
+      have hp := (h p (by simp)).1.ne
+      cases t with
+      | nil => simp [Segs.strs, joinWith] at hj; exact hp hj
+      | cons p' t' =>
+        simp only [Segs.strs, List.map_cons] at hj
+        rw [joinWith_cons_cons] at hj
+        exact hp (List.append_eq_nil_iff.mp hj).1
+  · intro e; subst e; rfl
+
+/-! ### text with a dotted-quad tail -/
+
+theorem parse6_quad (Q q : Str) (b0 b1 b2 b3 : UInt8) (hQ : '.' ∉ Q) (hq : inetAton q = .ok [b0, b1, b2, b3])
+    (hdot : '.' ∈ q) (hcol : ':' ∉ q) :
+    parse6 (Q ++ ':' :: q) =
+      match parseGroups (Q ++ [':', '0', ':', '0']) with
+      | .ok v => .ok (v.take (v.length - 4) ++ [b0, b1, b2, b3])
+      | .error e => .error e := by
+  obtain ⟨ip, hip, hraw⟩ := ip4_of_quad q b0 b1 b2 b3 hq
+  unfold parse6
+  have hd : has '.' (Q ++ ':' :: q) = true := by rw [has_true_iff]; simp [hdot]
+  rw [if_pos hd, rsplit1_append ':' Q q hcol]
+  simp only
+  rw [if_neg (by rw [(has_false_iff '.' Q).mpr hQ]; simp), if_neg (by rw [(has_false_iff ':' q).mpr hcol]; simp)]
+  cases parseGroups (Q ++ [':', '0', ':', '0']) with
+  | error e => rfl
+  | ok v => simp only [bind, Except.bind, hip, pure, Except.pure, hraw]
+
+theorem divmod256 (a b : Nat) (hb : b < 256) : (a * 256 + b) / 256 = a ∧ (a * 256 + b) % 256 = b := by omega
+
+theorem groupBytes_two (b0 b1 b2 b3 : UInt8) :
+    groupBytes [b0.toNat * 256 + b1.toNat, b2.toNat * 256 + b3.toNat] = [b0, b1, b2, b3] := by
+  obtain ⟨e1, e2⟩ := divmod256 b0.toNat b1.toNat b1.toNat_lt
+  obtain ⟨e3, e4⟩ := divmod256 b2.toNat b3.toNat b3.toNat_lt
+  simp [groupBytes, e1, e2, e3, e4]
+
+theorem quad_bytes (A : List Nat) (b0 b1 b2 b3 : UInt8) :
+    (groupBytes (A ++ [0, 0])).take ((groupBytes (A ++ [0, 0])).length - 4) ++ [b0, b1, b2, b3] =
+      groupBytes (A ++ [b0.toNat * 256 + b1.toNat, b2.toNat * 256 + b3.toNat]) := by
+  rw [groupBytes_append, groupBytes_append, groupBytes_two]
+  have : groupBytes [0, 0] = [0, 0, 0, 0] := by decide
+  rw [this, List.length_append]
+  simp
+
+theorem no_dot_join {ps : Segs} (h : ps.Good) : '.' ∉ joinWith ':' ps.strs := h.no_dot
+
+theorem zero2_strs (ps : Segs) : (ps ++ [(0, ['0']), (0, ['0'])]).strs = ps.strs ++ [['0'], ['0']] := by simp [Segs.strs]
+theorem zero2_vals (ps : Segs) : (ps ++ [(0, ['0']), (0, ['0'])]).vals = ps.vals ++ [0, 0] := by simp [Segs.vals]
+
+end Pox.Addr
+
+namespace Pox.Addr
+
+theorem good_zero2 {ps : Segs} (h : ps.Good) : (ps ++ [(0, ['0']), (0, ['0'])]).Good := h.append zeroSeg_good
+
+/-- full form without `::` -/
+theorem parse6_full (s : Str) (gs : List Nat) (hs : Side s gs) (hl : gs.length = 8) : parse6 s = .ok (groupBytes gs) := by
+  cases hs with
+  | hex ps hg ht hv =>
+    have hlen : ps.length = 8 := by rw [hv] at hl; simpa [Segs.vals] using hl
+    unfold parse6
+    rw [if_neg (by rw [ht, (has_false_iff '.' _).mpr hg.no_dot]; simp), ht, parseGroups_plain ps hg hlen, hv]
+  | quad ps q b0 b1 b2 b3 hg ht hq hdot hcol hv =>
+    have hlen : ps.length = 6 := by rw [hv] at hl; simp [Segs.vals] at hl; omega
+    have hne : ps.strs ≠ [] := by intro e; have : ps.strs.length = 0 := by rw [e]; rfl
+                                  simp [Segs.strs, hlen] at this
+    have ht' : s = joinWith ':' ps.strs ++ ':' :: q := by rw [ht]; unfold pre; rw [if_neg hne]; simp
+    rw [ht', parse6_quad _ q b0 b1 b2 b3 hg.no_dot hq hdot hcol]
+    have hp := parseGroups_plain _ (good_zero2 hg) (by simp [hlen])
+    rw [zero2_strs, joinWith_two, zero2_vals] at hp
+    unfold pre at hp; rw [if_neg hne] at hp
+    simp only [List.append_assoc, List.cons_append, List.nil_append] at hp
+    rw [hp]
+    simp only
+    rw [quad_bytes, hv]
+
+/-- compressed form `l::r` -/
+theorem parse6_dc (l r : Str) (a b : List Nat) (L : Segs) (hL : L.Good) (hl : l = joinWith ':' L.strs) (ha : a = L.vals)
+    (hr : Side r b) (hab : a.length + b.length ≤ 7) :
+    parse6 (l ++ ':' :: ':' :: r) =
+      if ((l.isEmpty || r.isEmpty) && a.length + b.length == 7) = true then .error .runtime
+      else .ok (groupBytes (a ++ List.replicate (8 - a.length - b.length) 0 ++ b)) := by
+  have haL : a.length = L.length := by rw [ha]; simp [Segs.vals]
+  have hle : l.isEmpty = true ↔ L.length = 0 := by
+    rw [hl, List.isEmpty_iff, hL.join_nil]; exact List.length_eq_zero_iff.symm
+  cases hr with
+  | hex R hg ht hv =>
+    have hbR : b.length = R.length := by rw [hv]; simp [Segs.vals]
+    have hre : r.isEmpty = true ↔ R.length = 0 := by
+      rw [ht, List.isEmpty_iff, hg.join_nil]; exact List.length_eq_zero_iff.symm
+    have hnd : '.' ∉ (l ++ ':' :: ':' :: r) := by
+      intro hm
+      rcases List.mem_append.mp hm with h | h
+      · rw [hl] at h; exact hL.no_dot h
+      · simp only [List.mem_cons] at h
+        rcases h with h | h | h
+        · exact absurd h (by decide)
+        · exact absurd h (by decide)
+        · rw [ht] at h; exact hg.no_dot h
+    unfold parse6
+    rw [if_neg (by rw [(has_false_iff '.' _).mpr hnd]; simp), hl, ht, parseGroups_dc' L R hL hg, ← hl, ← ht, ← ha, ← hv,
+      ← haL, ← hbR]
+    by_cases hu : ((l.isEmpty || r.isEmpty) && a.length + b.length == 7) = true
+    · rw [if_pos hu]
+      simp only [Bool.and_eq_true, Bool.or_eq_true, beq_iff_eq] at hu
+      rw [hle, hre] at hu
+      rw [if_neg (by omega)]
+    · rw [if_neg hu]
+      simp only [Bool.and_eq_true, Bool.or_eq_true, beq_iff_eq] at hu
+      rw [hle, hre] at hu
+      rw [if_pos (by omega)]
+  | quad R q b0 b1 b2 b3 hg ht hq hdot hcol hv =>
+    have hbR : b.length = R.length + 2 := by rw [hv]; simp [Segs.vals]
+    have hrne : r.isEmpty = false := by
+      rw [ht]
+      cases q with
+      | nil => simp at hdot
+      | cons c cs => simp
+    -- the text before the quad always ends with a colon
+    obtain ⟨Q, hQ, hQdot⟩ : ∃ Q, l ++ ':' :: ':' :: pre R.strs = Q ++ [':'] ∧ '.' ∉ Q := by
+      unfold pre
+      by_cases hs : R.strs = []
+      · rw [if_pos hs]
+        refine ⟨l ++ [':'], by simp, ?_⟩
+        intro hm
+        rcases List.mem_append.mp hm with h | h
+        · rw [hl] at h; exact hL.no_dot h
+        · simp at h
+      · rw [if_neg hs]
+        refine ⟨l ++ ':' :: ':' :: joinWith ':' R.strs, by simp, ?_⟩
+        intro hm
+        rcases List.mem_append.mp hm with h | h
+        · rw [hl] at h; exact hL.no_dot h
+        · simp only [List.mem_cons] at h
+          rcases h with h | h | h
+          · exact absurd h (by decide)
+          · exact absurd h (by decide)
+          · exact hg.no_dot h
+    have htext : l ++ ':' :: ':' :: r = Q ++ ':' :: q := by
+      rw [ht]
+      have : l ++ ':' :: ':' :: (pre R.strs ++ q) = (l ++ ':' :: ':' :: pre R.strs) ++ q := by simp
+      rw [this, hQ]; simp
+    have hgroups : parseGroups (Q ++ [':', '0', ':', '0']) =
+        if max 1 L.length + 1 + max 1 (R.length + 2) ≤ 8 then
+          .ok (groupBytes ((L.vals ++ List.replicate (8 - L.length - (R.length + 2)) 0 ++ R.vals) ++ [0, 0]))
+        else .error .runtime := by
+      have := parseGroups_dc' L (R ++ [(0, ['0']), (0, ['0'])]) hL (good_zero2 hg)
+      rw [zero2_strs, joinWith_two, zero2_vals, ← hl] at this
+      have e2 : l ++ ':' :: ':' :: (pre R.strs ++ ['0'] ++ ':' :: ['0']) = (l ++ ':' :: ':' :: pre R.strs) ++ ['0', ':', '0'] := by
+        simp
+      rw [e2, hQ] at this
+      have e3 : Q ++ [':'] ++ ['0', ':', '0'] = Q ++ [':', '0', ':', '0'] := by simp
+      rw [e3] at this
+      rw [this]
+      simp only [List.length_append, List.length_cons, List.length_nil, List.append_assoc]
+    rw [htext, parse6_quad Q q b0 b1 b2 b3 hQdot hq hdot hcol, hgroups]
+    have hu : ((l.isEmpty || r.isEmpty) && a.length + b.length == 7) = true ↔ (L.length = 0 ∧ L.length + (R.length + 2) = 7) := by
+      simp only [Bool.and_eq_true, Bool.or_eq_true, beq_iff_eq, hrne, Bool.false_eq_true, or_false]
+      rw [hle, haL, hbR]
+    by_cases hc : (L.length = 0 ∧ L.length + (R.length + 2) = 7)
+    · rw [if_pos (hu.mpr hc), if_neg (by omega)]
+    · rw [if_neg (fun h => hc (hu.mp h)), if_pos (by omega)]
+      simp only
+      rw [quad_bytes, hv, ha, haL, hbR]
+      simp only [List.append_assoc]
+
+/-- **the parser returns the denotation of every RFC 4291 text**, except that it refuses (RuntimeError) the texts
+    characterised by `unsupported6` -/
+theorem parse6_denote (s : Str) (bs : Bytes) (h : denote6 s = some bs) :
+    parse6 s = if unsupported6 s = true then .error .runtime else .ok bs := by
+  unfold denote6 at h
+  unfold unsupported6
+  cases hd : splitDC s with
+  | none =>
+    rw [hd] at h
+    simp only [Bool.false_eq_true, if_false]
+    cases hv : listVals s true with
+    | none => rw [hv] at h; simp at h
+    | some gs =>
+      rw [hv] at h
+      simp only at h
+      by_cases hl : gs.length = 8
+      · rw [if_pos hl] at h
+        simp only [Option.some.injEq] at h
+        rw [← h]
+        exact parse6_full s gs (side_of_listVals s true gs hv).1 hl
+      · rw [if_neg hl] at h; simp at h
+  | some lr =>
+    obtain ⟨l, r⟩ := lr
+    rw [hd] at h
+    simp only at h ⊢
+    cases hva : listVals l false with
+    | none => rw [hva] at h; simp at h
+    | some a =>
+      cases hvb : listVals r true with
+      | none => rw [hva, hvb] at h; simp at h
+      | some b =>
+        rw [hva, hvb] at h
+        simp only at h ⊢
+        by_cases hab : a.length + b.length ≤ 7
+        · rw [if_pos hab] at h
+          simp only [Option.some.injEq] at h
+          obtain ⟨L, hL, hl, ha⟩ := (side_of_listVals l false a hva).2 rfl
+          rw [splitDC_eq s l r hd, ← h]
+          exact parse6_dc l r a b L hL hl ha (side_of_listVals r true b hvb).1 hab
+        · rw [if_neg hab] at h; simp at h
+
+end Pox.Addr
